@@ -36,7 +36,9 @@ class LineQueue(QueueMonitor):
         if env.now != end:
             self.fail('run_window', f'simulate({d!r}) from {t0!r} ended with the clock at {env.now!r}, expected {end!r}')
             return
-        left = [s.brief() for s in self.pending.values() if s.time <= end and not s.cancelled]
+        # (events at the terminate priority itself - e.g. the end marker of an earlier run that an exception cut
+        # short - are outside the statement: it speaks of priorities above the terminate priority)
+        left = [s.brief() for s in self.pending.values() if s.time <= end and not s.cancelled and s.prio > 1]
         if left:
             self.fail('run_window', f'after simulate({d!r}) from {t0!r}: live events due by {end!r} not executed: '
                       f'{left[:3]}')
